@@ -17,7 +17,14 @@ SUB = [0.0, 0.5, -0.5, EPS1, -1.0]
 
 
 def template_classes(maxside, nmax):
-    """One template per (W, H, n_items, min_bins) + all templates count."""
+    """
+    Templates per (W, H, n_items, min_bins) class + all templates count.
+
+    The decoder reads only these four numbers (and the name) of the space;
+    to notice a decoder that starts to depend on anything else, up to three
+    templates per class are used: the first, and those with the smallest and
+    the largest total item area.
+    """
     from moptipyapps.binpacking2d.instgen.instance_space import InstanceSpace
     classes = {}
     total = 0
@@ -33,14 +40,28 @@ def template_classes(maxside, nmax):
                     continue
                 total += 1
                 key = (W, H, sp.n_items, sp.min_bins)
-                if key not in classes:
-                    classes[key] = rows
-    return classes, total
+                a = sp.total_item_area
+                c = classes.setdefault(key, {})
+                if "first" not in c:
+                    c["first"] = (a, rows)
+                if "min" not in c or a < c["min"][0]:
+                    c["min"] = (a, rows)
+                if "max" not in c or a > c["max"][0]:
+                    c["max"] = (a, rows)
+    out = {}
+    for key, c in classes.items():
+        seen = []
+        for nm in ("first", "min", "max"):
+            if c[nm][1] not in seen:
+                seen.append(c[nm][1])
+        for i, rows in enumerate(seen):
+            out[key + (i,)] = rows
+    return out, total
 
 
 def check_instance(key, rows_t, inst, x, cache, bads):
     """All clauses on one decoded instance."""
-    W, H, n, m = key
+    W, H, n, m = key[:4]
     A = W * H
     arr = np.asarray(inst)
     items = []
@@ -88,7 +109,7 @@ def job(a):
     )
     from moptipyapps.binpacking2d.instgen.instance_space import InstanceSpace
     key, rows_t, d, alpha, shard, nshards = a
-    W, H, n, m = key
+    W, H, n, m = key[:4]
     tmpl = C.make_instance(W, H, rows_t, name="t")
     sp = InstanceSpace(tmpl)
     dec = InstanceDecoder(sp)
@@ -99,12 +120,20 @@ def job(a):
     y = []
     y2 = []
     first = alpha[shard::nshards] if nshards > 1 else alpha
+    buf = np.zeros(d, float)  # one input buffer, overwritten in place
+    extra = len(key) > 4 and key[4] > 0
     for x0 in first:
         for rest in itertools.product(alpha, repeat=d - 1):
             x = np.array((x0,) + rest, float)
             try:
-                dec.decode(x, y)
-                dec.decode(x.copy(), y2)
+                # the long-lived decoder sees the reused buffer, a fresh
+                # decoder sees a fresh array: results must be equal
+                buf[:] = x
+                dec.decode(buf, y)
+                if extra:
+                    y2 = y  # additional templates: one decoding per vector
+                else:
+                    InstanceDecoder(sp).decode(x.copy(), y2)
             except Exception as e:  # noqa
                 bads.append(("decoder|raises", key, rows_t,
                              [float(v) for v in x], [],
@@ -140,7 +169,7 @@ def objective_job(a):
     from moptipyapps.binpacking2d.instgen.hardness import Hardness
     from moptipyapps.binpacking2d.instgen.instance_space import InstanceSpace
     key, rows_t, item_sets = a
-    W, H, n, m = key
+    W, H, n, m = key[:4]
     tmpl = C.make_instance(W, H, rows_t, name="t")
     sp = InstanceSpace(tmpl)
     bads = []
@@ -241,21 +270,24 @@ def run(ctx: Ctx) -> None:
     classes, ntemplates = template_classes(maxside, nmax)
     if not quick:
         # two larger templates (the design-time counterexample shape)
-        classes[(10, 10, 3, 2)] = [[5, 10, 2], [10, 10, 1]]
-        classes[(6, 6, 4, 2)] = [[3, 6, 2], [6, 3, 2]]
+        classes[(10, 10, 3, 2, 0)] = [[5, 10, 2], [10, 10, 1]]
+        classes[(6, 6, 4, 2, 0)] = [[3, 6, 2], [6, 3, 2]]
     ctx.log(f"{ntemplates} admissible templates in {len(classes)} classes "
-            f"(W, H, n_items, min_bins)")
+            f"(W, H, n_items, min_bins) x up to 3 templates")
     alpha = ALPHA if quick else ALPHA_T
     jobs = []
     caps = set()
     for key, rows in sorted(classes.items()):
-        W, H, n, m = key
+        W, H, n, m = key[:4]
         for k in (0, 1, 2, 3):
             d = 2 * (n - m) + 2 * k
             a = alpha
             if len(alpha) ** d > (3_000 if quick else 600_000):
                 a = SUB
-                if len(a) ** d > (16_000 if quick else 400_000):
+                lim = (16_000 if quick else 400_000)
+                if len(key) > 4 and key[4] > 0 and (n - m) > 1:
+                    lim = (700 if quick else 16_000)  # additional templates
+                if len(a) ** d > lim:
                     caps.add(f"n-m={n - m}, k={k} (d={d}) not explored")
                     continue
                 caps.add(f"n-m={n - m}, k={k} (d={d}): 5-value sub-alphabet")
